@@ -723,6 +723,15 @@ class Gen:
                                 ((1 << 63) + 1, 'stride=2^63+1'), (1 << 64, 'stride=2^64')):
                     one(W, fld({'k': 'u', 'n': 1}, [('s', 0)], count=3, stride=st), 'reject', tag)
                 one(W, fld({'k': 'u', 'n': 1}, [('s', 0)], count=5, stride=1 << 62), 'reject', 'count=5,stride=2^62')
+            # bit positions so large that lower + 1 / upper + 1 overflow the macro's usize arithmetic (defect D7)
+            if k < 4:
+                M = (1 << 64) - 1
+                one(W, fld({'k': 'bool'}, [('s', M)]), 'reject', 'bit=2^64-1')
+                one(W, fld({'k': 'u', 'n': 1}, [('r', M, M)]), 'reject', 'bits=2^64-1..=2^64-1')
+                one(W, fld({'k': 'u', 'n': 8}, [('r', 0, M)]), 'reject', 'bits=0..=2^64-1')
+                one(W, fld({'k': 'bool'}, [('s', 65536)]), 'reject', 'bit=65536')
+                one(W, fld({'k': 'bool'}, [('s', 65535)]), 'reject', 'bit=65535')
+                one(W, fld({'k': 'u', 'n': 2}, [('s', 0), ('s', M)], lst=True), 'reject', 'list-with-2^64-1')
             # bool out of bounds
             one(W, fld({'k': 'bool'}, [('s', W)]), 'reject', 'bool-bit=W')
             if S > W:
